@@ -46,7 +46,10 @@ private:
 
     ConstGenericSparseMatrix m_mat;
     const Index m_n;
-    Eigen::SparseLU<SparseMatrix> m_solver;
+    // Eigen::SparseLU needs its input in column-major form: with a row-major matrix type it
+    // factorizes the transpose. So the shifted matrix is always handed over column-major
+    using ColMajorSparseMatrix = Eigen::SparseMatrix<Scalar, Eigen::ColMajor, StorageIndex>;
+    Eigen::SparseLU<ColMajorSparseMatrix> m_solver;
 
 public:
     ///
@@ -85,7 +88,8 @@ public:
         SparseMatrix I(m_n, m_n);
         I.setIdentity();
 
-        m_solver.compute(m_mat - sigma * I);
+        const ColMajorSparseMatrix shifted = m_mat - sigma * I;
+        m_solver.compute(shifted);
         if (m_solver.info() != Eigen::Success)
             throw std::invalid_argument("SparseGenRealShiftSolve: factorization failed with the given shift");
     }
